@@ -36,6 +36,17 @@ from exactly_lib.util.name_and_value import NameAndValue
 from exactly_lib.util.symbol_table import SymbolTable
 
 MSG = text_docs.single_pre_formatted_line_object('scripted')
+# "arbitrary exception": the class depends on where it is raised (deterministically), among them classes that the
+# implementation handles specially elsewhere (OSError and subclasses: translated to hard errors by many
+# instructions - but an exception that ESCAPES an instruction is an implementation error whatever its class)
+_LAST_CALL = ('', '', 0)
+_EXC_CLASSES = (RuntimeError, FileNotFoundError, KeyError, TimeoutError, PermissionError, AssertionError, OSError,
+                ZeroDivisionError)
+
+
+def scripted_exception():
+    import zlib
+    return _EXC_CLASSES[zlib.crc32(repr(_LAST_CALL).encode()) % len(_EXC_CLASSES)]('scripted')
 ATC_EXIT_CODE = 7
 
 
@@ -45,6 +56,8 @@ class Recorder:
         self.observers = []  # callables invoked as f(step, phase, idx) at every recorded call
 
     def rec(self, step, phase, idx, **kw):
+        global _LAST_CALL
+        _LAST_CALL = (step, phase, idx)
         self.log.append(dict(step=step, phase=phase, idx=idx, **kw))
         for f in self.observers:
             f(step, phase, idx)
@@ -60,7 +73,7 @@ def outcome_svh(o):
     if o == 'he_raise':
         raise HardErrorException(MSG)
     if o == 'exc':
-        raise RuntimeError('scripted')
+        raise scripted_exception()
     raise ValueError(o)
 
 
@@ -72,7 +85,7 @@ def outcome_sh(o):
     if o == 'he_raise':
         raise HardErrorException(MSG)
     if o == 'exc':
-        raise RuntimeError('scripted')
+        raise scripted_exception()
     raise ValueError(o)
 
 
@@ -86,7 +99,7 @@ def outcome_pfh(o):
     if o == 'he_raise':
         raise HardErrorException(MSG)
     if o == 'exc':
-        raise RuntimeError('scripted')
+        raise scripted_exception()
     raise ValueError(o)
 
 
@@ -96,7 +109,7 @@ def sym_usages(o):
     if o == 've':
         return [SymbolReference('UNDEFINED_SYMBOL', reference_restrictions.is_any_type_w_str_rendering())]
     if o == 'exc':
-        raise RuntimeError('scripted')
+        raise scripted_exception()
     raise ValueError(o)
 
 
@@ -227,7 +240,7 @@ class Atc(Base, ActionToCheck):
             return eh.new_eh_hard_error(FailureDetails.new_constant_message('scripted'))
         if x == 'he_raise':
             raise HardErrorException(MSG)
-        raise RuntimeError('scripted')
+        raise scripted_exception()
 
 
 class TheActor(Actor):
@@ -242,7 +255,7 @@ class TheActor(Actor):
         if o == 'he_raise':
             raise HardErrorException(MSG)
         if o == 'exc':
-            raise RuntimeError('scripted')
+            raise scripted_exception()
         return Atc(self.r, 'act', 1, self.script)
 
 
